@@ -1433,3 +1433,37 @@ Proof.
   destruct (X2 _ _ _ Hf) as (i & v & A & B & C). exists v. split; auto.
   unfold visible, ensure_init. rewrite Hini. unfold amem. rewrite Hi, A. auto.
 Qed.
+
+(* ====================================================================== *)
+(* K. the scan of a restarted server skips nothing                         *)
+(* ====================================================================== *)
+
+(* the statement of C06_restart_indexes_all: after a restart every file that is still below the cache root —
+   whatever its name or the names of the directories it sits in — is indexed with its size (and, by
+   C06_crash_safe, none of them has a temp name): the scan leaves nothing behind unindexed and uncounted. *)
+Theorem restart_indexes_all c d ths sched n c' :
+  disk_ok d -> forallb is_call ths = true ->
+  let w := exec (start c d ths) (firstn n sched) in
+  let s' := restart c' (ws w) in
+  forall k sz mt, alookup k (files (lru s')) = Some (sz, mt) ->
+    alookup k (index (lru s')) = Some sz /\ is_temp k = false /\
+    exists v, visible s' k = Some v /\ blen v = sz.
+Proof.
+  intros Hd Hc w s' k sz mt Hf.
+  pose proof (reach c d ths (firstn n sched) Hd Hc) as HR. fold w in HR.
+  pose proof (persist_ok _ _ _ HR) as Hd'.
+  pose proof (start_Reach c' (persist (ws w)) [] Hd' eq_refl) as (HI0 & _ & HX0).
+  unfold WInv, start in HI0; simpl in HI0, HX0.
+  pose proof (Ext_ensure_init _ _ _ _ _ HI0 HX0) as HX1.
+  fold (restart c' (ws w)) in HX1. fold s' in HX1.
+  assert (Hini : inited s' = true) by apply ensure_init_inited.
+  destruct HX1 as [X1 X2 X3 X4]. rewrite Hini in X1.
+  destruct X1 as (_ & _ & (Hda & _)).
+  assert (Hi : alookup k (index (lru s')) = Some sz) by (apply Hda; eauto).
+  split; auto. split.
+  - destruct (is_temp k) eqn:Ht; auto.
+    destruct (crash_safe c d ths sched n c' Hd Hc) as (_ & Hn & _).
+    destruct (Hn k Ht) as (Hf0 & _). fold w in Hf0. fold s' in Hf0. congruence.
+  - destruct (X2 _ _ _ Hf) as (i & v & A & B & C). exists v. split; auto.
+    unfold visible, ensure_init. rewrite Hini. unfold amem. rewrite Hi, A. auto.
+Qed.
